@@ -225,8 +225,32 @@ func genStepCase(idx int64, r *Rng, thorough, limited bool) *StepCase {
 	if r.Chance(1, 3) {
 		aimIndirect(sc, r)
 	}
+	if m >= 12 && m <= 4096 && r.Chance(1, 12) {
+		aimSharedPointer(sc, r)
+	}
 	randModeLen(sc, r)
 	return sc
+}
+
+// aimSharedPointer puts two to four storing instructions at PC, PC+1, ... whose indirect B operands all go through
+// ONE pointer cell that none of them changes; the pointer's fields sit where the sum folds for some of them and not
+// for the others.  Executed back to back (K = their number), each must resolve the chain from its own PC.
+func aimSharedPointer(sc *StepCase, r *Rng) {
+	m := sc.M
+	n := 2 + r.Intn(3)
+	d := n + 1 + r.Intn(min(m-n-2, 8))
+	x := (sc.PC + d) % m
+	lim := []int{sc.W, sc.R}[r.Intn(2)]
+	off := func() int { return ((lim/2-d+r.Intn(n+2)-1)%m + m) % m }
+	sc.Core[x] = mars.Insn{Op: mars.DAT, Mod: mars.MF, AM: mars.DIR, BM: mars.DIR, A: off(), B: off()}
+	bm := []mars.Mode{mars.BIND, mars.AIND}[r.Intn(2)]
+	for i := 0; i < n; i++ {
+		ins := mars.Insn{Op: []mars.Op{mars.MOV, mars.ADD, mars.SUB, mars.MOV}[r.Intn(4)], Mod: mars.Mod(r.Intn(int(mars.NumMods))), AM: []mars.Mode{mars.IMM, mars.DIR}[r.Intn(2)], BM: bm}
+		ins.A = r.Intn(2)
+		ins.B = (x - (sc.PC + i) + 2*m) % m
+		sc.Core[(sc.PC+i)%m] = ins
+	}
+	sc.K = n
 }
 
 func limitClass(sc *StepCase) string {
